@@ -525,12 +525,33 @@ fn gen_nested(ctx: &GenCtx) -> Vec<Value> {
             v.push(json!({"alg": alg, "depth": depth}));
         }
     }
+    for alg in ["embedded_sig_v4", "embedded_sig_v6", "embedded_sig_mixed"] {
+        for depth in [1usize, 7, 8, 9, 50, 400] {
+            v.push(json!({"alg": alg, "depth": depth}));
+        }
+    }
     v
 }
 
 fn run_nested(plan: &Value, rec: &mut Rec) {
     let depth = jusize(plan, "depth");
     let alg = jstr(plan, "alg");
+    if alg.starts_with("embedded_sig") {
+        // Embedded Signature subpackets inside Embedded Signature subpackets: every level is parsed from a
+        // copy of the rest, so unbounded nesting costs memory and work quadratic in the input
+        let bytes = Arc::new(crate::checks::c04::deep_artifact(alg, depth));
+        let len = bytes.len() as u64;
+        let mut h = Fnv::default();
+        h.str(&plan.to_string());
+        rec.eval(h.0, depth > 1);
+        rec.count(&format!("fault:F-declare:nested-{alg}"));
+        rec.sample(json!({"alg": alg, "depth": depth, "bytes": len}));
+        let m = measured(0, || {
+            parse_everything(&bytes, &Sched::Full, 8192);
+        });
+        judge(rec, plan, plan.clone(), &format!("nested:{alg}"), &format!("{depth} levels of {alg}"), len, 0, &m);
+        return;
+    }
     let mut inner = frame(11, &[b'b', 0, 0, 0, 0, 0, b'h', b'i'], &LenForm::NewMinimal).unwrap();
     for _ in 0..depth {
         let mut body: Vec<u8>;
